@@ -150,7 +150,7 @@ Example split_filter_nonvacuous :
               [PChildEq (nt "x") (bs "a]b"); PChildPred (NTName (bs "p") (bs "y")) (PSelfEq (bs "[x='1']"));
                PAnd (PAttrEq ([], bs "id") (bs "say ""hi""")) (PNot (PTextEq (bs "it's")))] in
   target_ok tg /\
-  render_target tg = bs "//n/*[x='a]b'][p:y[.=""[x='1']""]][(@id='say ""hi""') and (not(text()=""it's""))]".
+  render_target tg = bs "//n/*[x='a]b'][p:y[.=""[x='1']""]][@id='say ""hi""' and not(text()=""it's"")]".
 Proof.
   split; [|vm_compute; reflexivity].
   unfold target_ok. cbn [t_steps t_filters].
